@@ -401,7 +401,9 @@ func (r *router) find(path string, paramsPointer *param.Params, unescape bool) (
 
 	Param:
 		// Param node
-		if child := cn.paramChild; search != nilString && child != nil {
+		// a named parameter stands for a non-empty piece of a segment: "/a/x:id/b" must not take "/a/x/b"
+		// (id == ""), just as "/a/x:id" does not take "/a/x"
+		if child := cn.paramChild; search != nilString && search[0] != '/' && child != nil {
 			cn = child
 			i := strings.Index(search, slash)
 			if i == -1 {
